@@ -301,8 +301,8 @@ theorem sim_write (act : Nat → ErrAct) (s : State) (σ : SpecSt) (p : Bytes) (
   obtain ⟨kind, buf, closeReq, isOpen, interest⟩ := s
   obtain ⟨hb, hos, how, hc, hpo, hpc, hi⟩ := h
   simp only at hc hpo hpc hi
-  cases isOpen <;> simp_all [step, stepCore, specStep]
-  all_goals constructor <;> simp_all
+  cases isOpen <;> cases kind <;> simp_all [step, stepCore, specStep]
+  all_goals constructor <;> (try simp_all)
 
 theorem sim_close (act : Nat → ErrAct) (s : State) (σ : SpecSt) (h : R s σ) :
     R (step act s .close).1 (specRun σ (step act s .close).2) := by
@@ -426,7 +426,7 @@ theorem attempt_closed (act : Nat → ErrAct) (s : State) (p : Bytes) (o : Outco
 theorem step_closed (act : Nat → ErrAct) (s : State) (op : Op) (h : s.isOpen = false) :
     (step act s op).1.isOpen = false := by
   cases op with
-  | write p => simpa [step, stepCore] using h
+  | write p => simp only [step, stepCore]; split <;> simpa using h
   | close =>
     simp only [step, stepCore]; split
     · exact doClose_closed _
